@@ -533,6 +533,9 @@ func Stress(out string, n int) {
 	}
 	w.Put(sameToken("tcp", 3*n+20, 25*n))
 	w.Put(sameToken("udp", 3*n+21, 25*n))
+	w.Put(sameTokenUpload(3*n+22, 3*n))
+	w.Put(reuseAfterEnd(3*n+23, 3, "timeout"))
+	w.Put(reuseAfterEnd(3*n+24, 3, "cancel"))
 	// the library's own servers and clients of all four transports over loopback sockets
 	for i, tr := range []string{"udp", "dtls", "tcp", "tls"} {
 		w.Put(stressReal(tr, 2*n+i+1, 6, 200*time.Millisecond))
